@@ -4,7 +4,7 @@
      nodes/node.py          Node.copy (copy.copy + _refine_copy: fresh children list, child.copy())
      nodes/scoping_node.py  ScopingNode._refine_copy (symbol_table.deep_copy(), then
                             `for node in self.walk((Reference, Loop))` re-binding `node.symbol` /
-                            `node.variable` by `self.symbol_table.lookup(<old symbol>.name)` when the old
+                            `node.variable` by `self.symbol_table.lookup(<old symbol>.name)` (lookup normalises the name) when the old
                             symbol is `in other.symbol_table.symbols`)
      symbols/symbol_table.py SymbolTable.deep_copy (symbol.copy() for every symbol, ImportInterface
                             re-created with the container looked up by name in the new table)
@@ -31,7 +31,7 @@ Inductive slot :=
 | Rebound (s : N)      (* Reference.symbol, Loop._variable : visited by ScopingNode._refine_copy *)
 | Plain (s : N).       (* Literal.datatype.precision : shallow-copied, never visited *)
 
-Definition table := list (N * N).          (* ordered dict: normalised name -> symbol id *)
+Definition table := list (N * N).          (* ordered dict: NORMALISED name (key) -> symbol id *)
 
 Inductive node := Node (id tag : N) (sl : slot) (tab : option table) (ch : list node).
 
@@ -52,6 +52,11 @@ Record aobj := { obounds : list node; osyms : list N; opay : N }.
 Record world := { hs : N -> sym; ho : N -> aobj }.
 
 (* --------------------------------------------------------------- helpers *)
+(* SymbolTable._normalize: table keys are lower-cased names; a Symbol stores its name as written.
+   A name code is  16 * <id of the lower-cased string> + <case variant> ; variant 0 is the
+   lower-case spelling itself. *)
+Definition norm (n : N) : N := N.shiftl (N.shiftr n 4) 4.
+
 Definition memN (x : N) (l : list N) : bool := existsb (N.eqb x) l.
 Definition syms (t : table) : list N := map snd t.
 Definition keys (t : table) : list N := map fst t.
@@ -97,7 +102,7 @@ Fixpoint shift_ids (off : N) (e : node) : node :=
 
 (* SymbolTable.deep_copy: `new_st.add(symbol.copy())` — key = name of the copied symbol *)
 Definition deep_copy_table (h : N -> sym) (soff : N) (t : table) : table :=
-  map (fun e => (sname (h (snd e)), snd e + soff)) t.
+  map (fun e => (norm (sname (h (snd e))), snd e + soff)) t.
 
 (* <Symbol subclass>.copy() followed by the ImportInterface fix of deep_copy.
    `t'` is the new table.  A failed lookup is a KeyError in Python (see copy_raises); the model
@@ -109,7 +114,7 @@ Definition copied_sym (h : N -> sym) (off ooff : N) (t' : table) (y : sym) : sym
      sinit := option_map (shift_ids off) (sinit y);       (* copied, not re-bound *)
      sintf := match sintf y with
               | ILocal o => if styped y then ILocal o else ILocal (o + ooff)
-              | IImport c => match lookup (sname (h c)) t' with
+              | IImport c => match lookup (norm (sname (h c))) t' with
                              | Some c' => IImport c'
                              | None => IImport c
                              end
@@ -121,7 +126,7 @@ Definition rebind_slot (h : N -> sym) (t t' : table) (sl : slot) : slot :=
   match sl with
   | Rebound s =>
       if memN s (syms t)
-      then match lookup (sname (h s)) t' with Some s' => Rebound s' | None => Rebound s end
+      then match lookup (norm (sname (h s))) t' with Some s' => Rebound s' | None => Rebound s end
       else sl
   | _ => sl
   end.
@@ -158,7 +163,7 @@ Definition copy_world (W : world) (off soff ooff : N) (n : node) : world :=
 (* deep_copy raises KeyError when an imported symbol's container is not in the same table *)
 Definition copy_raises (h : N -> sym) (n : node) : bool :=
   existsb (fun p => match sintf (h (fst p)) with
-                    | IImport c => match lookup (sname (h c)) (deep_copy_table h 0 (snd p)) with
+                    | IImport c => match lookup (norm (sname (h c))) (deep_copy_table h 0 (snd p)) with
                                    | Some _ => false | None => true end
                     | ILocal _ => false
                     end) (owned_tabs n).
@@ -243,7 +248,7 @@ Definition set_name (y : sym) (nm : N) : sym :=
 
 (* SymbolTable.rename_symbol: the key of s changes in every table that holds s *)
 Definition rename_tab (s nm : N) (t : table) : table :=
-  map (fun e => if snd e =? s then (nm, s) else e) t.
+  map (fun e => if snd e =? s then (norm nm, s) else e) t.
 Fixpoint rename_tree (s nm : N) (n : node) : node :=
   match n with
   | Node i tag sl tab ch =>
@@ -282,7 +287,7 @@ Definition apply_edit (e : edit) (st : state) : state :=
          sa := rename_tree s nm (sa st); sb := rename_tree s nm (sb st) |}
   | ENewSym k s y =>
       {| sw := {| hs := upd (hs W) s y; ho := ho W |};
-         sa := add_sym_tree k (sname y) s (sa st); sb := add_sym_tree k (sname y) s (sb st) |}
+         sa := add_sym_tree k (norm (sname y)) s (sa st); sb := add_sym_tree k (norm (sname y)) s (sb st) |}
   | ESetSym s y =>
       {| sw := {| hs := upd (hs W) s (set_name y (sname (hs W s))); ho := ho W |};
          sa := sa st; sb := sb st |}
@@ -356,7 +361,7 @@ Definition safe_b (W : world) (n : node) : bool :=
 Fixpoint nodupb (l : list N) : bool :=
   match l with [] => true | x :: r => negb (memN x r) && nodupb r end.
 Definition tab_wf_b (h : N -> sym) (t : table) : bool :=
-  nodupb (keys t) && forallb (fun e => fst e =? sname (h (snd e))) t.
+  nodupb (keys t) && forallb (fun e => fst e =? norm (sname (h (snd e)))) t.
 Definition imports_local_b (h : N -> sym) (t : table) : bool :=
   forallb (fun s => match sintf (h s) with IImport c => memN c (syms t) | ILocal _ => true end) (syms t).
 Definition wf_b (W : world) (off soff ooff : N) (n : node) : bool :=
